@@ -900,6 +900,8 @@ class Interp:
         if isinstance(a, (VInt, VBool)) and isinstance(b, (VInt, VBool)):
             x, y = self.as_int(a, node), self.as_int(b, node)
             return {ast.Lt: x < y, ast.LtE: x <= y, ast.Gt: x > y, ast.GtE: x >= y}[type(op)]
+        if self.st.spec and (isinstance(a, (VAtom, VOpaque)) or isinstance(b, (VAtom, VOpaque))):
+            return z3.BoolVal(False)   # ordering with None inside a (guarded) clause: total, false
         if isinstance(a, VStr) and isinstance(b, VStr):
             if isinstance(op, ast.Lt):
                 return sym.str_lt(a, b, False)
@@ -1533,7 +1535,11 @@ class Interp:
         k = self.choose(len(outcomes), "call " + ref.short) if len(outcomes) > 1 and not st.spec else 0
         outcome = outcomes[k]
         if outcome == "normal":
-            res = self.fresh(c.returns, ref.short + "_ret") if c.returns else atom(None)
+            if isinstance(c.returns, str) and c.returns.startswith("field:"):
+                # the result is the (new) value of a field of the receiver, e.g. Lexer.token
+                res = self.getattr(env["self"], c.returns[6:], node)
+            else:
+                res = self.fresh(c.returns, ref.short + "_ret") if c.returns else atom(None)
             env2 = dict(env)
             if "result" in env2:
                 env2["arg_result"] = env2["result"]
@@ -1591,6 +1597,8 @@ class Interp:
             return v
         if isinstance(v, VDyn):
             return self.fresh_dyn(label)
+        if isinstance(v, VObj):
+            return VObj(v.cls, self.fresh_oid(), label)   # another object of the same class
         if isinstance(v, VTuple):
             return VTuple([self.havoc_like(x, label) for x in v.items], v.names, v.cls)
         if isinstance(v, VFloat):
